@@ -34,6 +34,9 @@ CHECKS = {
  "C16": dict(cat="proof", tech="contract-based deductive: quadrotor.derive_model traced with all 39 parameters symbolic; invariants decided as ring identities per control path (ALG), dependency (frame) analysis on the graph, SMT for the motor law",
              text="q.q' = 0; Newton-Euler wrench equals the independent per-rotor sum (thrust at arm position, reaction torque, modelled aero/ground terms); hover with quarter-weight rotors on a symmetric frame is an equilibrium; free-fall accelerometer output is zero; zero rotor moment for equal speeds on a symmetric frame; independence of horizontal position and equivariance under yaw rotations of the world; first-order motor lag with the right time constant. All for symbolic positive parameters and all states.",
              note="A-GRAPH; real arithmetic; symmetric-frame and positivity requires listed in the evidence", ref="5/C16"),
+ "C08": dict(cat="proof", tech="contract-based deductive: strapdown_ins_propagate / SE23 exp_mixed / calculate_N traced from the real code; the flow ODE in dt, initial value, semigroup law and unit norm decided as ring identities (ALG) + lemma L-ODE",
+             text="d/d(dt) of the returned state equals the IMU kinematics evaluated at the returned state for every initial state, specific force, gravity, dt > 0 and rate (closed-form cell), x(0) = x0 exactly, zero-rate motion exact for every dt, two steps equal one step of the summed duration, |q| stays 1: hence the propagation is the exact flow, with no discretisation error.",
+             note="A-GRAPH; real arithmetic; CasADi symbolic differentiation; lemma L-ODE; small-angle cell deferred to C06", ref="5/C08"),
 }
 NA = {
  "C17": "closed-loop convergence of the hybrid cascade from an envelope of initial conditions is a whole-trajectory property; no pre/postcondition on a function of /repo expresses it short of a Lyapunov certificate (its per-call ingredients are C13, C15, C16)",
